@@ -69,7 +69,11 @@ theorem c12_sendq_batch (gs gr : Cfg) (es er : Env) (hkeys : ∀ i, (es.keyAt i)
     output).  If those outputs are the outputs of a function of the payload (`DeflTable`: no more is assumed about
     `compress/flate` here; the round-trip law is in `MsgOK.codec`), then for every queue size and fill the receiver is handed
     exactly the data messages of the batch whose call returned 0 (`acceptedOf`), each once, in order, unchanged, without
-    error, in every segmentation of the bytes `batchQ` says were handed to the conn writer. -/
+    error, in every segmentation of the bytes `batchQ` says were handed to the conn writer.
+    What this does NOT say: the driver calls `batchQ` only for the sending side named by `from=` of a `sendq=` case — for
+    direct-write batches it runs a hand-written fold over `appWrite` that no lemma relates to `appWrites`; `DeflTable` is a
+    hypothesis on observed data (equal payloads, equal outputs) that nothing checks; both endpoints start fresh (`{}`), with
+    one `Env` each, and the receiver has `readLimit = 0`, as in `c12_roundtrip`; the writer goroutine's draining is not modelled. -/
 theorem c12_sendq_batch_driver (gs gr : Cfg) (base er : Env) (defl : Bytes → Bytes) (defls : List Bytes)
     (hkeys : ∀ i, (base.keyAt i).length = 4) (hmf : gs.maxFrame > 0)
     (hcomp : gs.writeCompression = true → gr.enableCompression = true) (hrl : gr.readLimit = 0)
